@@ -513,6 +513,16 @@ def c07_edit_uses_old_callee():
     assert jnp.allclose(score, new.get_score()), (float(score), float(new.get_score()))
     return float(score)
 
+@probe
+def c17_vmapped_builder_nested_index():
+    """open: a vmapped builder with a nested index level answers lookups with the wrong value / flag"""
+    vals = jnp.array([10.0, 11.0, 12.0])
+    direct = C[0, jnp.arange(3)].set(vals)
+    vm = jax.vmap(lambda i, v: C[0, i].set(v))(jnp.arange(3), vals)
+    a, b = direct[0, 1], vm[0, 1]
+    assert bool(b.flag) and float(b.value) == float(a.value), (a, b)
+    return float(b.value)
+
 if __name__ == "__main__":
     names = sys.argv[1:] or list(P)
     bad = 0
